@@ -35,6 +35,9 @@ type Msg struct {
 	NRec   int    `json:"nrec,omitempty"`
 	StrLen int    `json:"strlen,omitempty"`
 	Len    int    `json:"len,omitempty"`
+	// Pad (data): the set ends with this many zero bytes of padding, fewer than the shortest record
+	// (RFC 7011 3.3.1); the message is as valid as without them
+	Pad int `json:"pad,omitempty"`
 }
 
 // Case is a stream and its segmentation (cut offsets, strictly increasing, inside the stream).
@@ -130,6 +133,9 @@ func build(c Case) (msgs [][]byte, valid []bool) {
 			b = ref.DataMessage(h, ref.Template{ID: id, Fields: fs[t]}, recs)
 			if len(b) > 65535 {
 				b = ref.DataMessage(h, ref.Template{ID: id, Fields: fs[t]}, recs[:1])
+			}
+			if m.Pad > 0 && len(b)+4 <= 65535 {
+				b = gen.FixLengths(append(b, make([]byte, 1+(m.Pad-1)%(ref.MinRecLen(fs[t])-1))...))
 			}
 		case "baddata": // a data set for template 1 whose record is cut inside its last field
 			t, id = 1, 257
@@ -754,6 +760,7 @@ func TestC11(t *testing.T) {
 	short := [][]Msg{
 		{{Kind: "tpl"}, {Kind: "data", NRec: 2}, {Kind: "data", NRec: 1}},
 		{{Kind: "tpl", Tpl: 1}, {Kind: "data", Tpl: 1, NRec: 1, StrLen: 3}, {Kind: "tpl"}, {Kind: "data", NRec: 1}},
+		{{Kind: "tpl"}, {Kind: "data", NRec: 2, Pad: 3}, {Kind: "data", NRec: 1, Pad: 1}, {Kind: "data", NRec: 1}},
 		{{Kind: "tpl"}, {Kind: "badversion"}, {Kind: "data", NRec: 1}},
 		{{Kind: "tpl"}, {Kind: "data", NRec: 1}, {Kind: "notemplate"}, {Kind: "data", NRec: 1}},
 		{{Kind: "tpl"}, {Kind: "badtemplate", Tpl: 1}, {Kind: "data", NRec: 2}},
@@ -835,7 +842,7 @@ func TestC11(t *testing.T) {
 				c.Msgs = append(c.Msgs, Msg{Kind: "tpl", Tpl: rapid.IntRange(0, 1).Draw(t, "tpl")})
 				continue
 			}
-			m := Msg{Kind: "data", Tpl: rapid.IntRange(0, 1).Draw(t, "dtpl"), NRec: rapid.IntRange(1, 5).Draw(t, "nrec"), StrLen: rapid.SampledFrom([]int{0, 3, 254, 255, 300}).Draw(t, "strlen")}
+			m := Msg{Kind: "data", Tpl: rapid.IntRange(0, 1).Draw(t, "dtpl"), NRec: rapid.IntRange(1, 5).Draw(t, "nrec"), StrLen: rapid.SampledFrom([]int{0, 3, 254, 255, 300}).Draw(t, "strlen"), Pad: rapid.SampledFrom([]int{0, 0, 0, 1, 2, 3, 4, 11}).Draw(t, "pad")}
 			switch rapid.IntRange(0, 19).Draw(t, "size") {
 			case 0:
 				m.NRec, m.StrLen = 1, 65000 // near the 65535 limit
